@@ -8,7 +8,7 @@ from vf import e2e, oracle_net as on
 
 LEVEL = "exploration"
 RULE = ("seeded scenes: random rooted tree skeletons (2-6 nodes, shuffled listing) x 1-5 well-separated animals with missing nodes x images 110-235 px non-square x size matching on/off x "
-        "input scale {1,0.5,0.75} x (cms stride, paf stride) in {1,2,4,8}^2 x refinement {None, integral} x batch 1-4 x max_stride {16,32} x provider {LabelsReader, VideoReader}. "
+        "input scale {1,0.5,0.75} x (cms stride, paf stride) in {1,2,4,8}^2 x refinement {None, integral} x batch 1-4 x max_stride {16,32} x provider {LabelsReader, VideoReader}; every 5th LabelsReader run reads a two-video project whose first frame comes from a tiny empty video (one inference model, batches of different size); every 7th scene is a crowded 3x3 / 3x2 grid of compact animals (17-36 peaks per frame). "
         "non-trivial = frame with >= 2 animals or an animal with a missing node; distinct by the configuration tuple + skeleton")
 ASSUMPTIONS = ["well-separated premise enforced by the generator: animal centres >= 2.6 body sizes apart, nodes of an animal >= 2.5 confidence-map cells apart (in network-input pixels)",
                "the oracle network's PAF width is chosen from the two strides (sigma = max(1.5*paf_stride, 3) input px) - the network is free to be ideal, the claim is about the decoder",
@@ -45,8 +45,14 @@ def gen_case(ctx, i):
     cms = int(r.choice([1, 2, 4, 8]))
     paf = int(r.choice([1, 2, 4, 8]))
     n_nodes = int(r.integers(2, 7))
-    return {"i": i, "H": H, "W": W, "max_hw": max_hw, "scale": scale, "cms_stride": cms, "paf_stride": paf, "n_nodes": n_nodes, "edges": rand_tree(r, n_nodes),
-            "n_animals": int(r.integers(1, 6)), "missing_p": float(r.choice([0.0, 0.2, 0.35])), "refinement": [None, "integral"][int(r.integers(0, 2))], "batch": int(r.integers(1, 5)),
+    if i % 7 == 3:  # crowded frame: a 3x3 / 3x2 grid of compact animals, 17-36 peaks per frame (candidate lists of >= 17 elements)
+        n_nodes = int(r.choice([3, 4]))
+        return {"i": i, "crowd": [3, int(r.choice([2, 3]))], "H": 234, "W": int(r.choice([210, 222])), "max_hw": [None, None], "scale": 1.0, "cms_stride": int(r.choice([1, 2])),
+                "paf_stride": int(r.choice([1, 2, 4])), "n_nodes": n_nodes, "edges": rand_tree(r, n_nodes), "n_animals": 9, "missing_p": float(r.choice([0.0, 0.15])),
+                "refinement": [None, "integral"][int(r.integers(0, 2))], "batch": int(r.integers(1, 4)), "max_stride": 16, "n_frames": 2, "seed": int(r.integers(0, 2 ** 31))}
+    session = bool(i % 5 == 1)
+    return {"i": i, "session": session, "H": H, "W": W, "max_hw": max_hw, "scale": scale, "cms_stride": cms, "paf_stride": paf, "n_nodes": n_nodes, "edges": rand_tree(r, n_nodes),
+            "n_animals": int(r.integers(1, 6)), "missing_p": float(r.choice([0.0, 0.2, 0.35])), "refinement": [None, "integral"][int(r.integers(0, 2))], "batch": 1 if (session and mode == "none") else int(r.integers(1, 5)),
             "max_stride": int(r.choice([16, 32])), "n_frames": int(r.integers(2, 4)), "seed": int(r.integers(0, 2 ** 31))}
 
 
@@ -69,12 +75,24 @@ def make_scene(case, name):
     spacing = max(9.0, 2.6 * case["cms_stride"] / tot, 1.2 * case["paf_stride"] / tot)  # original px between nodes of an animal
     body = max(16.0, spacing * (0.8 + 0.35 * n))
     poses = {}
+    grid = []
+    if case.get("crowd"):  # centres on a regular grid, 1.6 body diameters apart: bounding boxes never touch
+        gy, gx = case["crowd"]
+        body = spacing * (0.8 + 0.35 * n) * 0.85
+        if 2 * body * 1.6 * (gx - 1) > W - 42 - 2 * body or 2 * body * 1.6 * (gy - 1) > H - 42 - 2 * body:
+            return None
+        xs = np.linspace(21 + body, W - 22 - body, gx)
+        ys = np.linspace(21 + body, H - 22 - body, gy)
+        grid = [np.array([x, y]) for y in ys for x in xs]
     for f in range(case["n_frames"]):
         P = []
         centres = []
-        for a in range(case["n_animals"]):
+        for a in range(case["n_animals"] if not grid else len(grid)):
             ok = False
             for _ in range(120):
+                if grid:
+                    c, ok = grid[a], True
+                    break
                 c = np.array([r.uniform(20 + body, W - 21 - body), r.uniform(20 + body, H - 21 - body)]) if (W > 2 * body + 42 and H > 2 * body + 42) else None
                 if c is None:
                     break
@@ -102,7 +120,11 @@ def make_scene(case, name):
         poses[(0, f)] = P
     if not any(poses.values()) or not any(len(p) for p in poses.values()):
         return None
-    return e2e.SceneFiles("C03", name, [(H, W, case["n_frames"])], n, [tuple(e) for e in case["edges"]], poses)
+    vids = [(H, W, case["n_frames"])]
+    if case.get("session"):  # a tiny empty video the same predictor object processes first (state kept from the first batch would show on the main video)
+        vids.append((48, 64, 1))
+        poses[(1, 0)] = []
+    return e2e.SceneFiles("C03", name, vids, n, [tuple(e) for e in case["edges"]], poses)
 
 
 def expected_instances(pose, edges):
@@ -149,7 +171,14 @@ def check(ctx, case):
             log = []
             pred, net = e2e.bottomup_predictor(sf, case["cms_stride"], case["paf_stride"], 0.75, paf_sigma, case["scale"], max_hw, case["max_stride"], case["batch"], case["refinement"], log)
             try:
-                outs = e2e.run(pred, provider, sf)
+                lp = None
+                if case.get("session") and provider == "LabelsReader":
+                    # a multi-video project: the tiny empty video's frame is listed (and processed) first, then the main video's frames - one
+                    # inference-model object sees batches of different size (Predictor objects cannot be given a second source: make_pipeline
+                    # overwrites preprocess_config, so the sequence has to come from one labels file)
+                    lp = sf.write_labels([(1, 0)] + list(sf.labeled_keys), "session.slp", keep_empty=True)
+                    ctx.count("session_runs")
+                outs = e2e.run(pred, provider, sf, labels_path=lp)
             except TimeoutError as e:
                 ctx.violation("predict-hangs", f"{provider}: {e}", small)
                 continue
@@ -173,6 +202,8 @@ def check(ctx, case):
                 for vi, fi, inst, vals in zip(o["video_idx"], o["frame_idx"], o["pred_instance_peaks"], o["pred_peak_values"]):
                     got[(int(vi), int(fi))] = (np.asarray(inst, float).reshape(-1, case["n_nodes"], 2), np.asarray(vals, float).reshape(-1, case["n_nodes"]))
             keys = sf.labeled_keys if provider == "LabelsReader" else [(0, f) for f in range(case["n_frames"])]
+            if lp is not None:
+                keys = list(keys) + [(1, 0)]  # the empty warm-up frame must yield nothing
             for key in keys:
                 poses = [p for p in sf.scene.poses[sf.code_of[key]] if not np.isnan(p).all()]
                 exp = [(p, g) for p in poses for g in expected_instances(p, edges)]
@@ -180,6 +211,8 @@ def check(ctx, case):
                 ctx.count("frames_checked")
                 if len(poses) >= 2 or any(np.isnan(p).any() for p in poses):
                     nt = True
+                if sum(int((~np.isnan(p).any(-1)).sum()) for p in poses) >= 17:
+                    ctx.count("frames_with_17_or_more_peaks")
                 if len(P) != len(exp):
                     key_ = KEY_LABELS if (provider == "LabelsReader" and case["scale"] != 1.0) else "instance-count"
                     ctx.violation(key_, f"{provider}: frame {key}: {len(P)} predicted instances for {len(exp)} expected groups (animals {len(poses)})", small)
@@ -223,6 +256,8 @@ def finalize(ctx):
     ctx.require("runs:VideoReader", 3)
     ctx.require("runs:LabelsReader", 3)
     ctx.require("instances_checked", 20)
+    ctx.require("frames_with_17_or_more_peaks", 2)
+    ctx.require("session_runs", 2)
 
 
 LEVEL_TEXT = ("Real BottomUpPredictor objects run on coordinate-coded videos with an oracle network that renders ideal multi-animal confidence maps and PAFs for the image it actually "
